@@ -49,7 +49,7 @@ def handler(kind):
 
 def make_plan(w: World, op: dict) -> Plan:
     if op["k"] not in HANDLERS:
-        from . import ops_copy, ops_store  # noqa: F401 - register handlers
+        from . import ops_copy, ops_read, ops_store  # noqa: F401 - register handlers
     return HANDLERS[op["k"]](w, op)
 
 
